@@ -37,12 +37,15 @@ Frozen(e) == /\ frozen
              /\ e.add = "refused" /\ e.connect = "refused" /\ e.storage = "refused"
              /\ UNCHANGED vars
 Invalid(e) == /\ H(tid).invalid # "none" /\ e.failed /\ UNCHANGED vars
+(* a finalize() that failed (unknown name) can be repeated once the block exists *)
+Retry(e) == e.first_failed /\ e.resolved /\ ~frozen /\ UNCHANGED vars
 Step == /\ l <= Len(Ev(tid))
         /\ LET e == Ev(tid)[l] IN
              \/ e.ev = "final" /\ H(tid).invalid = "none" /\ Final(e)
              \/ e.ev = "frozen" /\ Frozen(e)
              \/ e.ev = "started" /\ frozen /\ UNCHANGED vars
              \/ e.ev = "invalid" /\ Invalid(e)
+             \/ e.ev = "retry" /\ Retry(e)
         /\ l' = l + 1 /\ UNCHANGED tid
 TraceSpec == TraceInit /\ [][Step]_<<vars, tid, l>>
 ASSUME InitRegs
